@@ -381,6 +381,10 @@ func fudge(x interface{}) interface{} {
 		return float64(vv)
 	case int:
 		return float64(vv)
+	case Bindings:
+		// Bindings stored as a value (e.g. "lastBindings") are a
+		// plain map as far as matching is concerned.
+		return map[string]interface{}(vv)
 	default:
 		return x
 	}
